@@ -272,6 +272,17 @@ func (d *Data) SplitLabels(v dvid.VersionID, fromLabel, splitLabel uint64, r io.
 	}
 	toLabelSize, _ := split.Stats()
 
+	// The split must be part of the label: refuse one with more voxels than the blocks of the label
+	// hold before it is partitioned into blocks (the work and memory of that grow with the declared runs).
+	var labelBlocks uint32
+	if labelBlocks, _, err = getSparseVolBlocks(datastore.NewVersionedCtx(d, v), fromLabel); err != nil {
+		return
+	}
+	if maxVoxels := uint64(labelBlocks) * uint64(d.BlockSize.Prod()); toLabelSize > maxVoxels {
+		err = fmt.Errorf("split volume of %d voxels > %d voxels in the %d blocks of label %d", toLabelSize, maxVoxels, labelBlocks, fromLabel)
+		return
+	}
+
 	mutID := d.NewMutationID()
 	splitOp := labels.SplitOp{
 		MutID:    mutID,
